@@ -433,6 +433,7 @@ func runB(root, id string, eb *engineB) int {
 		ts := time.Now()
 		parts := make([]*explore.Stats, shards)
 		errs := make([]string, shards)
+		aborts := make([][3]string, shards)
 		var wg sync.WaitGroup
 		for s := 0; s < shards; s++ {
 			wg.Add(1)
@@ -451,6 +452,13 @@ func runB(root, id string, eb *engineB) int {
 					if len(tail) > 3000 {
 						tail = tail[len(tail)-3000:]
 					}
+					if msg, site := runtimeAbort(errb.String()); msg != "" {
+						// the Go runtime aborted the worker (out of memory,
+						// stack overflow...): the code under test killed the
+						// process - a violation, not a tool failure
+						aborts[s] = [3]string{msg, site, tail}
+						return
+					}
 					errs[s] = fmt.Sprintf("shard %d of %s: %v: %s", s, sc.Name, err, tail)
 					return
 				}
@@ -468,7 +476,17 @@ func runB(root, id string, eb *engineB) int {
 			remaining = 0
 		}
 		var ok []*explore.Stats
+		abortSeen := map[string]bool{}
 		for s := range parts {
+			if a := aborts[s]; a[0] != "" {
+				fp := report.FPEscape(sc.Name + "/process-abort/" + a[0] + "@" + a[1])
+				if !abortSeen[fp] {
+					abortSeen[fp] = true
+					chk.Report(fp, fmt.Sprintf("%s: the Go runtime aborted the worker process while it explored this scenario: fatal error: %s (at %s)", sc.Doc, a[0], a[1]),
+						map[string]interface{}{"property": id, "scenario": sc.Name, "note": "the worker died: no schedule was returned; re-run the check to reproduce", "stderr_tail": a[2]})
+				}
+				continue
+			}
 			if errs[s] != "" {
 				chk.EngineError("%s", errs[s])
 			} else {
